@@ -56,8 +56,9 @@ CLAIMED = {
         "proof (partial): the independent specification reader (strict definite-length BER, RFC message grammar) reads back exactly the "
         "request record from what the x690 mirror writes: lengths, every integer, OIDs of the stated domain with unbounded later "
         "arcs, every SET value kind, PDU framing, community messages (whole datagram, nothing else), SNMPv3 header / USM "
-        "parameters / msgData and the scoped PDU; each operation builds that record (PDU tags from generated facts); tied by "
-        "BYTE-EXACT comparison of every datagram at the sender seam with the model's emit, plus the independent Python decoder",
+        "parameters / msgData and the scoped PDU; each operation builds that record (PDU tags from generated facts); the discovery "
+        "probe reads back as the RFC 3414 discovery request (C05_discovery_probe); tied by BYTE-EXACT comparison of every datagram "
+        "at the sender seam — discovery probes included — with the model's emit, plus the independent Python decoder",
         "partial: OIDs with >= 2 arcs, arc0 <= 2, arc1 < 40; for 2.x with x >= 40 the statement is proved false (x690 packs the first two arcs into one octet) and recorded as a known finding of the dependency; datagrams < 256^126 "
         "octets; digest octets and ciphertext are taken from the wire (C10, C11)",
     ),
